@@ -233,6 +233,11 @@ def run(ctx):
                 sel, sr, r = pyg.parse_via_recorder(rq, rc, reqs.TLS[p])
                 seen[p] = sr
                 res.evaluations += 1
+                if p == "gemini" and not any(c in w for c in "\r\n"):
+                    # the same query with its sub-delimiters (+ & = ...) left literal, as RFC 3986 allows
+                    sel, sr, r = pyg.parse_via_recorder(reqs.build(p, "/s", search=w, literal_query=True), rc, reqs.TLS[p])
+                    seen["gemini(literal sub-delims)"] = sr
+                    res.evaluations += 1
             if re.search(r"[^A-Za-z0-9]", w):
                 res.nontrivial.add(("search", w))
             bad = {p: v for p, v in seen.items() if v != w}
